@@ -2,11 +2,11 @@ package main
 
 import (
 	"fmt"
-	"os"
-	"regexp"
 	"go/ast"
 	"go/token"
 	"go/types"
+	"os"
+	"regexp"
 	"sort"
 	"strings"
 
@@ -60,31 +60,35 @@ type NamedTerm struct {
 }
 
 type VC struct {
-	prog     *Program
-	fi       *FuncInfo
-	script   []string
-	obls     []*Obligation
-	n        int
-	tags     map[string]int
-	heapSort map[string]string
-	declared map[string]bool
-	epochs   int
-	errs     []string
-	ufs      map[string]bool
-	callN    map[string]int
-	srcCache map[string][]byte
-	dropped  map[string]int
-	entryVals []NamedTerm
-	deferLits []*ast.FuncLit
-	closureLits map[string]*closureInfo
-	quantDepth int // >0 while the body of a quantifier is being translated
-	asserted   map[string]bool
-	liveSplits int
-	nameCount  map[string]int
+	prog          *Program
+	fi            *FuncInfo
+	script        []string
+	obls          []*Obligation
+	n             int
+	tags          map[string]int
+	heapSort      map[string]string
+	declared      map[string]bool
+	epochs        int
+	errs          []string
+	ufs           map[string]bool
+	callN         map[string]int
+	srcCache      map[string][]byte
+	dropped       map[string]int
+	entryVals     []NamedTerm
+	deferLits     []*ast.FuncLit
+	closureLits   map[string]*closureInfo
+	quantDepth    int // >0 while the body of a quantifier is being translated
+	asserted      map[string]bool
+	liveSplits    int
+	structSorts   map[string]*types.Struct
+	sortDecls     []string // datatype declarations (emitted first)
+	funDecls      []string // uninterpreted functions / global constants (emitted after the sorts)
+	ghostKeys     map[string]bool
+	nameCount     map[string]int
 	usedContracts map[string]bool
-	namedFns   map[string]*types.Func
-	defs       map[string]string
-	patMemo    map[string]bool
+	namedFns      map[string]*types.Func
+	defs          map[string]string
+	patMemo       map[string]bool
 }
 
 func newVC(prog *Program, fi *FuncInfo) *VC {
@@ -326,6 +330,7 @@ func (vc *VC) relevantPCs(goal string, scriptLen int) map[string]bool {
 func (vc *VC) query(o *Obligation) string {
 	var b strings.Builder
 	b.WriteString(prelude)
+	vc.writeHeader(&b)
 	rel := vc.relevantPCs(o.Goal.S, o.ScriptLen)
 	for _, l := range vc.script[:o.ScriptLen] {
 		if rel != nil && strings.HasPrefix(l, "(assert (=> pc!") {
@@ -350,10 +355,22 @@ func (vc *VC) query(o *Obligation) string {
 	return b.String()
 }
 
+func (vc *VC) writeHeader(b *strings.Builder) {
+	for _, l := range vc.sortDecls {
+		b.WriteString(l)
+		b.WriteString("\n")
+	}
+	for _, l := range vc.funDecls {
+		b.WriteString(l)
+		b.WriteString("\n")
+	}
+}
+
 // relaxedQuery: the obligation's query with every quantified hypothesis removed (model finding only).
 func (vc *VC) relaxedQuery(o *Obligation) string {
 	var b strings.Builder
 	b.WriteString(prelude)
+	vc.writeHeader(&b)
 	for _, l := range vc.script[:o.ScriptLen] {
 		if strings.HasPrefix(l, "(assert") && (strings.Contains(l, "(forall ") || strings.Contains(l, "(exists ")) {
 			continue
@@ -388,6 +405,9 @@ func (vc *VC) sortOf(t types.Type) string {
 		if isOpaqueStruct(u) {
 			return SInt
 		}
+		if st, ok := u.Underlying().(*types.Struct); ok && st.NumFields() > 0 {
+			return vc.structSort(u, st)
+		}
 		return vc.sortOf(u.Underlying())
 	case *types.Basic:
 		switch {
@@ -415,7 +435,7 @@ func (vc *VC) sortOf(t types.Type) string {
 		if u.NumFields() == 0 {
 			return SUnit
 		}
-		vc.fail(token.NoPos, "struct value type %s has no SMT sort (only fields of heap objects / locals are supported)", u)
+		return vc.structSort(t, u)
 	case *types.TypeParam:
 		vc.fail(token.NoPos, "unresolved type parameter %s", u)
 	case *types.Tuple:
@@ -424,6 +444,34 @@ func (vc *VC) sortOf(t types.Type) string {
 	vc.fail(token.NoPos, "unsupported type %s (%T)", t, t)
 	return ""
 }
+
+// structSort: a struct VALUE (local, parameter, slice element) is a record datatype, declared on first use.
+func (vc *VC) structSort(t types.Type, st *types.Struct) string {
+	name := "S_" + mangle(structName(t))
+	if vc.structSorts == nil {
+		vc.structSorts = map[string]*types.Struct{}
+	}
+	if _, ok := vc.structSorts[name]; ok {
+		return name
+	}
+	vc.structSorts[name] = st
+	var flds []string
+	for i := 0; i < st.NumFields(); i++ {
+		ft := st.Field(i).Type()
+		fs := SUnit
+		if !isEmptyStruct(ft) {
+			fs = vc.sortOf(ft)
+		}
+		flds = append(flds, fmt.Sprintf("(%s_%s %s)", name, mangle(st.Field(i).Name()), fs))
+	}
+	decl := fmt.Sprintf("(declare-datatypes ((%s 0)) (((mk_%s %s))))", name, name, strings.Join(flds, " "))
+	// sort declarations precede everything else in a query; nested struct sorts were declared by the recursive
+	// sortOf calls above and therefore already precede this one
+	vc.sortDecls = append(vc.sortDecls, decl)
+	return name
+}
+
+func structFieldSel(sort string, field string) string { return sort + "_" + mangle(field) }
 
 func isStructValue(t types.Type) bool {
 	s, ok := t.Underlying().(*types.Struct)
@@ -464,13 +512,29 @@ func (vc *VC) zeroSort(s string) Term {
 	case strings.HasPrefix(s, "(Array "):
 		k, v := arrayParts(s)
 		return ConstArray(k, v, vc.zeroSort(v))
+	case strings.HasPrefix(s, "S_"):
+		st := vc.structSorts[s]
+		var args []Term
+		for i := 0; i < st.NumFields(); i++ {
+			ft := st.Field(i).Type()
+			if isEmptyStruct(ft) {
+				args = append(args, True)
+			} else {
+				args = append(args, vc.zeroSort(vc.sortOf(ft)))
+			}
+		}
+		return app(s, "mk_"+s, args...)
 	}
 	vc.fail(token.NoPos, "no zero value for sort %s", s)
 	return Term{}
 }
 
 func (vc *VC) tagOf(t types.Type) int {
-	k := types.TypeString(types.Unalias(t), nil)
+	t = types.Unalias(t)
+	if p, ok := t.(*types.Pointer); ok { // *Alias and *Named denote the same type
+		t = types.NewPointer(types.Unalias(p.Elem()))
+	}
+	k := types.TypeString(t, nil)
 	if id, ok := vc.tags[k]; ok {
 		return id
 	}
@@ -572,6 +636,9 @@ func (vc *VC) havocAll(st *State) {
 	old := vc.alloc(st)
 	st.base = vc.newEpoch()
 	for k := range st.heap {
+		if vc.ghostKeys[k] {
+			continue // ghost state (variables of the contract files) is only changed by ghost code and models
+		}
 		delete(st.heap, k)
 	}
 	nw := vc.alloc(st)
